@@ -1,6 +1,6 @@
 (* TsigModel: the signature verifiers of the two threshold signature schemes, the share arithmetic of the
    threshold Schnorr signing run, and the textbook Schnorr / DSA predicates (definitions only).
-     GennaroJareckiKrawczykRabinNTS::Verify   GennaroJareckiKrawczykRabinDKG.cc:1733-1763
+     GennaroJareckiKrawczykRabinNTS::Verify   GennaroJareckiKrawczykRabinDKG.cc:1733-1766
      GennaroJareckiKrawczykRabinNTS::Sign     GennaroJareckiKrawczykRabinDKG.cc:1520-1731 (challenge, share, share check, sum)
      CanettiGennaroJareckiKrawczykRabinDSS::Verify  CanettiGennaroJareckiKrawczykRabinASTC.cc:4820-4859
      tmcg_mpz_fpowm                           mpz_spowm.cc:196-237
@@ -28,8 +28,10 @@ Definition powm_signed (b e p : Z) : option Z :=
 Section Hash.
   Variable H : list Z -> Z.
 
-  (* NTS::Verify(m, c, s) with public key y.  None = no verdict (exception / abort) *)
+  (* NTS::Verify(m, c, s) with public key y.  None = no verdict (exception / abort).
+     Step 0 (fix c546d31): s outside [0, q) is refused before the fixed-base power is evaluated *)
   Definition nts_verify (G : group) (y m c s : Z) : option bool :=
+    if (s <? 0) || (s >=? gq G) then Some false else
     match fpowm (table_bits G) (gg G) s (gp G) with
     | None => None
     | Some r0 =>
@@ -43,9 +45,10 @@ Section Hash.
       end
     end.
 
-  (* textbook Schnorr: c = H(m, g^s y^-c) in the group of order q *)
+  (* textbook Schnorr: s in Z_q and c = H(m, g^s y^-c) in the group of order q *)
   Definition schnorr_textbook (G : group) (y m c s : Z) : bool :=
-    c =? H [m; (gg G ^ (s mod gq G) * y ^ ((- c) mod gq G)) mod gp G].
+    (0 <=? s) && (s <? gq G) &&
+    (c =? H [m; (gg G ^ (s mod gq G) * y ^ ((- c) mod gq G)) mod gp G]).
 
   (* the challenge of a signing run with joint nonce r *)
   Definition nts_challenge (m r : Z) : Z := H [m; r].
